@@ -26,8 +26,10 @@ use crate::{
 #[derive(Clone, Debug, Serialize, Deserialize, PartialEq, Eq, Hash)]
 pub enum Ctor {
     Params { bits: usize, cap: usize, ext: usize },
-    Statement { ncommit: usize, nprom: usize, seed: bool, cap: usize },
+    /// seed: 0 none, 1 an ordinary scalar, 2 the zero scalar, 3 one
+    Statement { ncommit: usize, nprom: usize, seed: u8, cap: usize },
     Witness { shape: Vec<u8> },
+    WitnessBig { shape: Vec<u16> },
     OpeningLen { n: usize },
     Mask { deg: usize, len: usize },
     DegreeU8(u8),
@@ -61,7 +63,7 @@ fn grid<E: Engine>(ctx: &RunCtx) -> Vec<Ctor> {
         for cap in [1usize, 2, 4, 8, 16] {
             for ncommit in 0..=17usize {
                 for nprom in 0..=17usize {
-                    for seed in [false, true] {
+                    for seed in [0u8, 1, 2, 3] {
                         v.push(Ctor::Statement { ncommit, nprom, seed, cap });
                     }
                 }
@@ -84,6 +86,16 @@ fn grid<E: Engine>(ctx: &RunCtx) -> Vec<Ctor> {
         }
         for n in 0..=8 {
             v.push(Ctor::OpeningLen { n });
+        }
+        // large blinding counts (never a valid degree), alone and next to small ones
+        for big in [9u16, 31, 32, 33, 63, 64, 65, 127, 128, 129, 255, 256, 257, 300] {
+            v.push(Ctor::WitnessBig { shape: vec![big] });
+            for small in [1u16, 2, 6] {
+                v.push(Ctor::WitnessBig { shape: vec![small, big] });
+                v.push(Ctor::WitnessBig { shape: vec![big, small] });
+                v.push(Ctor::WitnessBig { shape: vec![small, small, big, small] });
+            }
+            v.push(Ctor::WitnessBig { shape: vec![big, big] });
         }
         for deg in 1..=6 {
             for len in 0..=8 {
@@ -151,12 +163,17 @@ pub fn oracle<E: Engine>(_ctx: &RunCtx, c: &Ctor, log: &mut CaseLog) -> Result<(
             }
         },
         Ctor::Statement { ncommit, nprom, seed, cap } => {
-            let want = ncommit.is_power_of_two() && nprom == ncommit && ncommit <= cap && !(*seed && *ncommit > 1);
+            let want = ncommit.is_power_of_two() && nprom == ncommit && ncommit <= cap && !(*seed != 0 && *ncommit > 1);
             expect_ok = want;
             let params = E::params(4, *cap, 2).map_err(|e| format!("{:?}", e))?;
             let commitments: Vec<E::P> = (0..*ncommit).map(|i| fresh_point::<E::P>(i as u64)).collect();
             let promises: Vec<Option<u64>> = (0..*nprom).map(|i| if i % 2 == 0 { Some(i as u64 % 16) } else { None }).collect();
-            let sd = if *seed { Some(Scalar::from(99u8)) } else { None };
+            let sd = match seed {
+                0 => None,
+                1 => Some(Scalar::from(99u8)),
+                2 => Some(Scalar::ZERO),
+                _ => Some(Scalar::ONE),
+            };
             let r = guarded(|| RangeStatement::init(params.clone(), commitments.clone(), promises.clone(), sd)).map_err(|e| format!("{} in {}", e, what))?;
             if r.is_ok() != want {
                 return Err(format!(
@@ -204,6 +221,19 @@ pub fn oracle<E: Engine>(_ctx: &RunCtx, c: &Ctor, log: &mut CaseLog) -> Result<(
                         return Err("RangeWitness opening lengths were adjusted".into());
                     }
                 }
+            }
+        },
+        Ctor::WitnessBig { shape } => {
+            let want = !shape.is_empty() && shape.iter().all(|n| *n == shape[0]) && (1..=6).contains(&shape[0]);
+            expect_ok = want;
+            let openings: Vec<CommitmentOpening> = shape
+                .iter()
+                .enumerate()
+                .map(|(i, n)| CommitmentOpening::new(i as u64, vec![Scalar::from(i as u64 + 2); *n as usize]))
+                .collect();
+            let r = guarded(|| RangeWitness::init(openings.clone())).map_err(|e| format!("{} in {}", e, what))?;
+            if r.is_ok() != want {
+                return Err(format!("RangeWitness::init with blinding counts {:?} is {} but the documented domain says {}", shape, okerr(r.is_ok()), okerr(want)));
             }
         },
         Ctor::OpeningLen { n } => {
@@ -312,8 +342,8 @@ pub fn def() -> PropertyDef {
         level: "exploration",
         rule: "Enumerated completely: RangeParameters::init for bit lengths 0..=130 x capacities 0..=130 (engine F) plus large powers of two \
                (2^16 .. 2^63, usize::MAX) and the valid points and their neighbours on Ristretto; RangeStatement::init for commitment counts \
-               0..=17 x promise counts 0..=17 x seed presence x capacity {1,2,4,8,16}; RangeWitness::init for the empty vector and every vector \
-               of 1-4 openings with blinding counts 0..=8 each; \
+               0..=17 x promise counts 0..=17 x seed {absent, ordinary, zero scalar, one} x capacity {1,2,4,8,16}; RangeWitness::init for the empty vector and every vector \
+               of 1-4 openings with blinding counts 0..=8 each, plus shapes containing 9..300 blinding factors; \
                CommitmentOpening::r_len 0..=8; ExtendedMask::assign degree 1..=6 x length 0..=8; ExtensionDegree::try_from for all 256 u8 values \
                and usize in {0..=300, 2^(8k)+i, usize::MAX-5, usize::MAX}; commit with 0..=8 blinding factors x degree 1..=6 (both engines). \
                proptest adds random usize bit lengths / capacities / degrees. Oracle: Ok/Err equals an independently written predicate from the \
